@@ -262,12 +262,19 @@ type CK struct {
 	Ar [2]IK
 }
 
+// BK is a comparable key struct with a bool in front of the component that tells keys apart.
+type BK struct {
+	On bool
+	N  string
+}
+
 type KeyMaps struct {
 	F map[FK]int
 	A map[[2]float32]string
 	I map[IK]string
 	B map[[2]uint8]int
 	C map[CK]int
+	D map[BK]int
 }
 
 // WU wraps a type with Equal/Compare methods in a comparable struct; WrapUser holds it next to a slice.
@@ -282,6 +289,58 @@ type WrapUser struct {
 type PB struct {
 	P *int
 	N int
+}
+
+// K* are comparable key structs: one leading component of each remaining kind in front of the one that tells keys apart.
+type KI8 struct {
+	A int8
+	N string
+}
+
+type KU16 struct {
+	A uint16
+	N string
+}
+
+type KF32 struct {
+	A float32
+	N string
+}
+
+type KC64 struct {
+	A complex64
+	N string
+}
+
+type KAB struct {
+	A [2]bool
+	N string
+}
+
+type KMS struct {
+	A MyStr
+	N string
+}
+
+type KU struct {
+	A uintptr
+	N string
+}
+
+type KR struct {
+	A rune
+	N string
+}
+
+type KeyMaps2 struct {
+	MI8 map[KI8]int
+	MU16 map[KU16]int
+	MF32 map[KF32]int
+	MC64 map[KC64]int
+	MAB map[KAB]int
+	MMS map[KMS]int
+	MU map[KU]int
+	MR map[KR]int
 }
 
 // Unit has nothing to compare, OnlyPad only padding.
@@ -437,6 +496,13 @@ type Sess struct {
 	Tags         []string
 }
 
+// Under has unexported fields whose names start with an underscore.
+type Under struct {
+	Name  string
+	_area int
+	_tags []string
+}
+
 // Ver has no methods; the Ver of the other package named ext declares Equal and Compare.
 type Ver struct {
 	Major int
@@ -530,10 +596,12 @@ func structTys() []*Ty {
 		mk("Twin", false),
 		mk("ext.Blank", false, "ext"),
 		mk("ext.Sess", false, "ext", "unexported", "extpriv"),
+		mk("ext.Under", false, "ext", "unexported", "extpriv"),
 		mk("Vers", false, "ext", "ext2", "user"),
 		mk("WrapUser", false, "user"),
 		mk("SameName", false, "ext", "unexported", "extpriv", "samename"),
 		mk("KeyMaps", false),
+		mk("KeyMaps2", false),
 		mk("Units", false),
 		mk("Shape", false),
 		mk("Pad", false, "unexported", "localpriv"),
